@@ -1,5 +1,49 @@
-(* Properties/C07.v — module merge.  Statements only. *)
-From Verif Require Import Base.Str Base.Outcome Model.Ast Model.Merge.
+(* Properties/C07.v — module merge succeeds iff conflict-free and returns the attributed union.
+   Statements only; proofs in Proofs/MergeProofs.v.  [merge] is the transcription of
+   TransformModuleFilesToModel (Model/Merge.v) over the parser model, after the repairs F4, F5, F12.
+   Proved here: the outcome discipline (an error list is never empty and never comes with a model, the
+   schema is the requested one), conservation of types under extension, and the exact effect of a
+   conflict-free extension on its target (relations gained, attribution, nothing else touched).  The
+   "iff conflict-free" direction over arbitrary file sets is carried by the correspondence and the
+   generator's oracle (run/lib/modgen.py), not by a theorem — see DESIGN.md. *)
+From Verif Require Import Base.Str Base.Outcome Model.Ast Model.Merge Proofs.MergeProofs.
 
 Theorem C07_empty_set : forall v, merge [] v = Ok {| m_schema := v; m_types := []; m_conds := [] |}.
 Proof. reflexivity. Qed.
+
+(* an error carries at least one entry (and, by the type of [outcome], no model) *)
+Theorem C07_no_empty_error : forall fs v es, merge fs v = Err es -> es <> [].
+Proof. exact merge_err_nonempty. Qed.
+
+Theorem C07_schema_version : forall fs v m, merge fs v = Ok m -> m_schema m = v.
+Proof. exact merge_ok_schema. Qed.
+
+(* success means that no file raised an error while collecting; the types of the result are exactly the
+   collected base types in declaration order (extensions never add, drop or reorder a type) and the
+   conditions are the collected ones *)
+Theorem C07_types_conserved : forall fs v m, merge fs v = Ok m ->
+  exists s, collect_files fs 0 init_mstate = Ok s /\ ms_errs s = [] /\
+            map td_name (m_types m) = map td_name (ms_raw s) /\ m_conds m = ms_conds s.
+Proof. exact merge_ok_types. Qed.
+
+Theorem C07_extensions_keep_types : forall exts all_lines raw errs raw' errs',
+  apply_all exts all_lines raw errs = Some (raw', errs') -> map td_name raw' = map td_name raw.
+Proof. exact apply_all_names. Qed.
+
+(* a conflict found while applying extensions is never dropped later *)
+Theorem C07_conflicts_accumulate : forall exts all_lines raw errs raw' errs',
+  apply_all exts all_lines raw errs = Some (raw', errs') -> exists more, errs' = errs ++ more.
+Proof. exact apply_all_errs. Qed.
+
+(* a conflict-free extension: the target gains exactly the extension's relations with their rewrites, each
+   attributed to the extending file (module attribution comes from the parser: Listener), every other
+   relation, the type's own module and file stay as they were *)
+Theorem C07_extension_effect : forall file lines ty existing td names orig errs orig',
+  NoDup names ->
+  merge_relations file lines ty existing names td orig errs = Some (orig', errs) ->
+  (forall n, In n names ->
+     assoc n (td_rels orig') = assoc n (td_rels td) /\ assoc n (td_rels td) <> None /\
+     exists rm, assoc n (td_meta_rels td) = Some rm /\ assoc n (td_meta_rels orig') = Some (with_rel_file file rm)) /\
+  (forall n, ~ In n names -> assoc n (td_rels orig') = assoc n (td_rels orig) /\ assoc n (td_meta_rels orig') = assoc n (td_meta_rels orig)) /\
+  td_module orig' = td_module orig /\ td_file orig' = td_file orig.
+Proof. exact merge_relations_spec. Qed.
